@@ -76,7 +76,7 @@ class Gen:
 			return r.choice(['\'a"b\'', '"a\'b"'])
 		if x < 0.96 and self.allow.get('str_escape'):
 			self.features.add('str_escape')
-			return r.choice(["'a\\nb'", '"t\\tz"', "'q\\'q'", '"b\\\\"'])
+			return r.choice(["'a\\nb'", '"t\\tz"', "'q\\'q'", '"b\\\\"', "'a\\\\\"b'", '"c\\\\\'d"', "'e\\\\'"])  # the last three: an escaped backslash in front of the other quote / the end
 		if x < 0.98 and self.allow.get('str_triple'):
 			self.features.add('str_triple')
 			return r.choice(['"""ab"""', "'''z'''"])
@@ -180,7 +180,7 @@ class Gen:
 
 # C++ spelling of string *tokens* with triple quotes / embedded double quotes is string-literal translation (decided under C01),
 # not folding: members carrying these features (directly or through a reference) are judged at the evaluator only
-TAINT = {'str_triple', 'str_inner_quote'}
+TAINT: set[str] = set()  # (was {'str_triple', 'str_inner_quote'} until the emission of string enum values was repaired: it now goes through to_double_quoted)
 
 
 def kind_of(v: object) -> str | None:
@@ -207,12 +207,18 @@ def gen_module(r: random.Random, allow: dict) -> dict:
 		env: dict[str, object] = {}
 		# an enum is homogeneous (all numbers or all strings): tranp infers ONE type for `.value` of an enum, mixed enums are a
 		# type-inference matter (C03), not constant folding
-		enum_kind = r.choices(['num', 'str'], [3, 1])[0]
+		# ... except for a share of enums that mix strings and ints (never int and float: 100 == 100.0 would alias): every member is
+		# folded and emitted with the type of its own value
+		enum_kind = r.choices(['num', 'str', 'str+int'], [6, 2, 1])[0] if allow.get('mixed_enum', True) else r.choices(['num', 'str'], [3, 1])[0]
 		for mi in range(PER_ENUM):
 			name = 'ABCDEFGH'[mi]
 			g = Gen(r, local + refs_other, allow)
 			depth = r.choice([1, 2, 2, 3, 3, 4, 5])
-			expr = g.expr(r.choices(['int', 'num', 'float'], [5, 3, 1])[0] if enum_kind == 'num' else 'str', depth)
+			if enum_kind == 'str+int':
+				g.features.add('mixed_enum')
+				expr = g.expr('str' if mi % 2 == 0 else 'int', depth)
+			else:
+				expr = g.expr(r.choices(['int', 'num', 'float'], [5, 3, 1])[0] if enum_kind == 'num' else 'str', depth)
 			expected, py_error = None, None
 			try:
 				ns = dict(env)
@@ -230,15 +236,17 @@ def gen_module(r: random.Random, allow: dict) -> dict:
 			text = expr
 			if py_error is not None:
 				# keep the module valid for the remaining members; this member is recorded as outside the quantifier
-				value = 9000 + ei * 10 + mi if enum_kind == 'num' else f'p{ei}{mi}'
+				value = 9000 + ei * 10 + mi if enum_kind == 'num' or (enum_kind == 'str+int' and mi % 2 == 1) else f'p{ei}{mi}'
 				text = repr(value)
 			lines.append(f'\t{name} = {text}')
 			members.append({'enum': ename, 'name': name, 'expr': expr, 'planted': text, 'py_error': py_error, 'features': sorted(g.features), 'kind': kind_of(value), 'eval_repr': repr(value)})
 			env[name] = value
-			if py_error is None:
+			if py_error is None and enum_kind != 'str+int':
+				# members of a mixed enum are not referred to from other expressions: `E.X.value` of a mixed enum is *typed* by the
+				# enum's first member (type inference, C03), which is not a matter of folding
 				local.append((name, kind_of(value), value, sorted(f for f in g.features if f in TAINT)))
 		for (n, k, v), m in zip([(m['name'], m['kind'], env[m['name']]) for m in members[-PER_ENUM:]], members[-PER_ENUM:]):
-			if m['py_error'] is None:
+			if m['py_error'] is None and enum_kind != 'str+int':
 				refs_other.append((f'{ename}.{n}.value', k, v, [f for f in m['features'] if f in TAINT]))
 		_OTHER_NS[ename] = _EnumNS(env)
 		lines.append('')
@@ -447,14 +455,16 @@ ALLOW_DEFAULT = {'hex_upper_x': True, 'hex_underscore': True, 'str_inner_quote':
 
 
 # witnesses of the two evaluator defects fixed in /repo (known_findings.json, status=fixed)
+FIXED_EXPRS2 = ['"x" + \'a\\\\"b\'', '\'y\' + "c\\\\\'d"', "'''t''' + 'a\\\\\"b'", "'p' + 'a\\\\\"b'", '"q" + "c\\\\\'d"', "'e\\\\' + \"f\""]
 FIXED_EXPRS = ["str('a')", '"z" + \'a"b\'', '"""ab""" + \'x\'', 'str(str(12 - 3) + \'\' + "0")', "'q' + str(A)", "\'\'\'z\'\'\' + 'y'"]
 
 
-def fixed_witness_case() -> dict:
+def fixed_witness_case(exprs: list[str] | None = None) -> dict:
+	exprs = exprs or FIXED_EXPRS
 	lines = ['from enum import Enum', '', 'class E0(Enum):']
 	members = []
 	env: dict = {}
-	for n, e in zip('ABCDEF', FIXED_EXPRS):
+	for n, e in zip('ABCDEF', exprs):
 		v = eval(e, {'__builtins__': {'str': str}}, dict(env))  # noqa: S307
 		env[n] = v
 		lines.append(f'\t{n} = {e}')
@@ -465,9 +475,29 @@ def fixed_witness_case() -> dict:
 	return {'source': '\n'.join(lines), 'members': members}
 
 
+def mixed_enum_case(first: str) -> dict:
+	"""An enum that mixes strings and ints, a string (or an int) first: every member is emitted with the type of its own value."""
+	exprs = [("'s' + 'x'", 'str'), ('100 + 23', 'int'), ('"a" + str(4)', 'str'), ('int("40") + 2', 'int'), ('7 * 6', 'int'), ("'q'", 'str')]
+	if first == 'int':
+		exprs = exprs[1:] + exprs[:1]
+	lines = ['from enum import Enum', '', 'class E0(Enum):']
+	members = []
+	for n, (e, k) in zip('ABCDEF', exprs):
+		v = eval(e, {'__builtins__': {'str': str, 'int': int}}, {})  # noqa: S307
+		lines.append(f'\t{n} = {e}')
+		members.append({'enum': 'E0', 'name': n, 'expr': e, 'planted': e, 'py_error': None, 'features': ['mixed_enum', k], 'kind': k, 'eval_repr': repr(v)})
+	lines.append('')
+	for n, (e, k) in zip('ABCDEF', exprs):
+		lines += [f'def get_E0_{n}() -> {k}:', f'\treturn E0.{n}.value', '']
+	return {'source': '\n'.join(lines), 'members': members}
+
+
 def shard(ctx: Ctx, acc: Acc) -> None:
 	if ctx.shard == 0:
 		check_module(acc, fixed_witness_case())
+		check_module(acc, fixed_witness_case(FIXED_EXPRS2))
+		check_module(acc, mixed_enum_case('str'))
+		check_module(acc, mixed_enum_case('int'))
 	n = N_MODULES[ctx.tier]
 	for i in range(n):
 		if not ctx.mine(i):
